@@ -220,7 +220,7 @@ struct Resize {
 		T t = mkfix<T>(prev);
 		t = s;
 		std::printf("convfix %u %u %c %s resize %u %u %s %s => %s\n", n1, r1, arith == Modulo ? 'M' : 'S', BtName<bt>::s, n2, r2, a.hex().c_str(), prev.hex().c_str(), outfix(t).c_str());
-		if constexpr (n1 <= n2 || (r1 > r2)) {        // fresh converting constructor (where the adapter assigns at all: otherwise it reads indeterminate storage)
+		{                                             // fresh converting constructor (every branch of the adapter assigns since the repair of the narrowing no-op)
 			T c(s);
 			std::printf("convfix %u %u %c %s resize %u %u %s 0 => %s\n", n1, r1, arith == Modulo ? 'M' : 'S', BtName<bt>::s, n2, r2, a.hex().c_str(), outfix(c).c_str());
 		}
@@ -251,7 +251,7 @@ struct Resize {
 	X(64,0,BT) X(64,32,BT) X(64,60,BT) X(72,4,BT) X(80,40,BT)
 #define ALLCFG(X,BT) SMALLCFG(X,BT) LARGECFG(X,BT)
 
-// resize matrix: all ordered pairs of RS (exhaustive sources) + selected large pairs
+// resize matrix: all ordered pairs of RS (exhaustive sources) + selected large pairs (19 sources x 17 targets)
 #define RS(X,A,BT) X(4,1,A,BT) X(4,4,A,BT) X(5,0,A,BT) X(6,2,A,BT) X(6,3,A,BT) X(8,2,A,BT) X(8,4,A,BT) X(8,8,A,BT) X(10,5,A,BT)
 
 template<unsigned n1, unsigned r1, bool arith, typename bt>
@@ -259,6 +259,7 @@ static void resize_from(uv::Rng& g, uint64_t count) {
 #define Y(N2,R2,A,BT) Resize<n1, r1, N2, R2, arith, bt>::run(g, count);
 	RS(Y, arith, bt)
 	Y(12,4,,) Y(16,8,,) Y(24,12,,) Y(32,16,,) Y(64,32,,)
+	Y(16,16,,) Y(20,0,,) Y(40,36,,)        // multi-limb targets: up-shift when narrowing (r2 >= r1), every source bit dropped (r2 = 0)
 #undef Y
 }
 template<bool arith, typename bt>
@@ -267,6 +268,7 @@ static void resize_all(uint64_t count) {
 #define Z(N1,R1,A,BT) resize_from<N1, R1, arith, bt>(g, count);
 	RS(Z, arith, bt)
 	Z(12,4,,) Z(16,8,,) Z(24,12,,) Z(32,16,,) Z(64,32,,) Z(40,20,,) Z(17,8,,)
+	Z(16,16,,) Z(32,32,,) Z(40,36,,)       // all-fraction sources: shift by the full width into a target without fraction bits, on two limbs
 #undef Z
 }
 
